@@ -71,17 +71,6 @@ pub fn dao_type_script(consensus: &Consensus) -> Script {
 pub struct Genesis {
     pub consensus: Consensus,
     pub cellbase: TransactionView,
-    pub funds: Vec<TransactionView>,
-}
-
-pub fn genesis_cellbase() -> TransactionView {
-    let (cell, data, script) = always_success_cell();
-    TransactionBuilder::default()
-        .input(CellInput::new(OutPoint::null(), 0))
-        .output(cell.clone())
-        .output_data(data.clone())
-        .witness(script.clone().into_witness())
-        .build()
 }
 
 pub fn make_genesis(cfg: &ChainCfg) -> Genesis {
@@ -158,7 +147,7 @@ pub fn make_genesis(cfg: &ChainCfg) -> Genesis {
         .satoshi_pubkey_hash(H160(SATOSHI_HASH))
         .satoshi_cell_occupied_ratio(Ratio::new(cfg.satoshi_ratio.0, cfg.satoshi_ratio.1))
         .build();
-    Genesis { consensus, cellbase, funds }
+    Genesis { consensus, cellbase }
 }
 
 pub struct Node {
@@ -221,7 +210,22 @@ pub fn build_block(node: &Node, plan: &BlockPlan) -> Result<BlockView, String> {
     let (_, reward) = RewardCalculator::new(consensus, snapshot.as_ref())
         .block_reward_to_finalize(&parent)
         .map_err(|e| format!("block_reward_to_finalize: {e}"))?;
-    let cellbase = always_success_cellbase(number, reward.total, consensus);
+    // as the block assembler: no output when there is no finalisation target yet or
+    // when the reward cannot create the target's cell
+    let lack = CellOutput::new_builder()
+        .capacity(reward.total)
+        .lock(always_success_script())
+        .build()
+        .is_lack_of_capacity(Capacity::zero())
+        .map_err(|e| format!("capacity: {e}"))?;
+    let cellbase = if lack {
+        always_success_cellbase(0, reward.total, consensus)
+            .as_advanced_builder()
+            .set_inputs(vec![CellInput::new_cellbase_input(number)])
+            .build()
+    } else {
+        always_success_cellbase(number, reward.total, consensus)
+    };
     let mut all = vec![cellbase.clone()];
     all.extend(plan.txs.iter().cloned());
     let dao = {
